@@ -14,6 +14,7 @@ import (
 	"strings"
 	"time"
 
+	"github.com/b2broker/simplefix-go/fix"
 	"verifharness/codec"
 	"verifharness/fix44reg"
 )
@@ -201,6 +202,19 @@ func main() {
 				c2.ID = c.ID + "/late"
 				c2.Late = true
 				runCase(&c2)
+			}
+		}
+		if has("zones") {
+			// only where the library prints a zoned time.Time as the clock reading in its own zone (as time.Time.Format does); a
+			// library that normalised to UTC would have another canonical text and these cases would not apply to it
+			probe := time.Date(2001, 2, 3, 4, 5, 6, 7000000, time.FixedZone("", 19800))
+			if string(fix.NewTime(probe).ToBytes()) == probe.Format("20060102-15:04:05.000") {
+				for i := 0; i < 1+*n/4; i++ {
+					c := g.ZonedCase()
+					runCase(c)
+				}
+			} else {
+				fmt.Println("wiredrv: family zones skipped: a zoned time.Time is not printed as its own clock reading")
 			}
 		}
 		if has("empty") {
